@@ -21,17 +21,19 @@ HAND = [
     {"name": "patterns-env", "env": {"VERIF_SET": "envvalue", "VERIF_NUM": "17"},
      "doc": {"meta": {"imports": {"fx": "probe.test/fx"}, "functions": {"fn": "fx.Fn"}},
              "parameters": {"host": "localhost", "port": 8080, "addr": "%host%:%port%", "url": "http://%addr%/%%", "cnt": "%fn()%",
-                            "e1": '%env("VERIF_SET")%', "e2": '%envInt("VERIF_NUM")%', "e3": 'x-%env("VERIF_SET")%-%envInt("VERIF_NUM")%'},
+                            "e1": '%env("VERIF_SET")%', "e2": '%envInt("VERIF_NUM")%', "e3": 'x-%env("VERIF_SET")%-%envInt("VERIF_NUM")%',
+                            # other names for the function-backed parameter: one evaluation, whatever name asks first
+                            "cntAlias": "%cnt%", "cntAlias2": "%cntAlias%", "cntIn": "n=%cnt%"},
              "services": {
                  "sh": {"constructor": "fx.NewA", "arguments": ["%url%", "%cnt%"], "scope": "shared", "getter": "GetSh", "type": "*fx.T"},
                  "cx": {"constructor": "fx.NewB", "arguments": ["@sh", "%addr%-%e3%"], "scope": "contextual", "tags": ["t"]},
                  "ns": {"constructor": "fx.NewC", "arguments": ["@cx", "%host%/%port%/%e1%"], "scope": "non_shared", "tags": [{"name": "t", "priority": 2}]},
                  "df": {"constructor": "fx.NewD", "arguments": ["@cx", "@sh", "%e2%"], "getter": "GetDf", "type": "*fx.T"},     # no scope: contextual by derivation
-                 "ag": {"constructor": "fx.NewZ", "arguments": ["!tagged t", "@df"]}},
+                 "ag": {"constructor": "fx.NewZ", "arguments": ["!tagged t", "@df", "%cntAlias2%", "%cntIn%"]}},
              "decorators": [{"tag": "t", "decorator": "fx.Decorate", "arguments": ["%addr%"]}]},
      "eff": {"sh": "shared", "cx": "contextual", "ns": "non_shared", "df": "contextual", "ag": "contextual"},
      "made": {"sh": "probe.test/fx.NewA", "cx": "probe.test/fx.NewB", "ns": "probe.test/fx.NewC", "df": "probe.test/fx.NewD", "ag": "probe.test/fx.NewZ"},
-     "params": ["host", "port", "addr", "url", "cnt", "e1", "e2", "e3"], "fns": ["probe.test/fx.Fn"], "getters": ["GetSh", "GetDf"], "tags": ["t"]},
+     "params": ["host", "port", "addr", "url", "cnt", "e1", "e2", "e3", "cntAlias", "cntAlias2", "cntIn"], "fns": ["probe.test/fx.Fn"], "getters": ["GetSh", "GetDf"], "tags": ["t"]},
     # services given by value (composite literals, evaluated at every construction), told apart by an injected field
     {"name": "values", "env": {},
      "doc": {"meta": {"imports": {"fx": "probe.test/fx"}},
